@@ -31,11 +31,11 @@ const (
 type Source struct {
 	Bytes    []byte
 	Version  string
-	Method   string            // encryption actually used, e.g. "rc4-r3", "aes-r6"
-	Bodies   map[int][]byte    // stream object number -> decoded bytes
-	DangGen  bool              // dangling objects are references with a wrong generation
-	Graph    Graph             // the graph as written (dangling references renumbered)
-	Renumber map[int]int       // abstract number -> number used in the file (where it differs)
+	Method   string         // encryption actually used, e.g. "rc4-r3", "aes-r6"
+	Bodies   map[int][]byte // stream object number -> decoded bytes
+	DangGen  bool           // dangling objects are references with a wrong generation
+	Graph    Graph          // the graph as written (dangling references renumbered)
+	Renumber map[int]int    // abstract number -> number used in the file (where it differs)
 }
 
 func bodyBytes(seed int64, name string, n int) []byte {
